@@ -68,8 +68,13 @@ func inputs(c Case, off time.Duration) []RP {
 	for i, s := range c.Seq {
 		t = t.Add(time.Duration(s.Dt) * time.Second)
 		p := RP{Name: "m", Tags: map[string]string{"h": "a", "p": fmt.Sprintf("p%d", i%2)}, Fields: map[string]any{"o": int64(i)}, T: t, Dims: []string{"h"}}
-		if i%2 == 1 {
-			p.Tags["q"] = "z" // the points of one batch do not all carry the same tag keys
+		// the points of one batch do not all carry the same tag keys: the second one has as many tags as the first but
+		// another key (r instead of p), the third one more (p and q)
+		switch i % 3 {
+		case 1:
+			p.Tags = map[string]string{"h": "a", "r": "y"}
+		case 2:
+			p.Tags = map[string]string{"h": "a", "p": "p1", "q": "z"}
 		}
 		switch s.V {
 		case "_":
@@ -309,6 +314,9 @@ var nodes = []NodeSpec{
 		}
 		p.Fields["z"] = 1.5
 		p.Tags["k"] = "d"
+		if v, ok := p.Tags["p"]; !ok || v == "" {
+			p.Tags["p"] = "never" // only a point that lacks the tag gets the default
+		}
 		return p, true
 	})},
 	{Name: "delete", Tick: `delete().field('o').field('nope').tag('p')`, Ref: perPoint(func(p RP) (RP, bool) {
